@@ -1215,6 +1215,21 @@ pub fn run_op<const N: usize, T: Elem>(
             junk(buf, toks[1]);
             ret.push('-');
         }
+        // the private index helpers, through the hooks (C19)
+        ("add_mod", 3) | ("sub_mod", 3) => {
+            let (x, y, m) = (num!(toks[1]), num!(toks[2]), num!(toks[3]));
+            let sub = toks[0] == "sub_mod";
+            let r = guard(|| {
+                if sub {
+                    circular_buffer::verif_sub_mod(x, y, m)
+                } else {
+                    circular_buffer::verif_add_mod(x, y, m)
+                }
+            });
+            done!(r, |v| {
+                let _ = write!(ret, "{}", v);
+            });
+        }
         ("drop", 0) => {
             let b = mem::replace(buf, CircularBuffer::new());
             let r = guard(|| cc!(drop(b)));
